@@ -227,7 +227,19 @@ def Report.specfail (r : Report) (st : DSt) (ln : Nat) (cmd spec impl : String) 
   { r with specfails := r.specfails + 1,
            msgs := r.msgs.push s!"SPECFAIL {st.caseId} {ln} {cmd} spec={spec} impl={impl}" }
 
-def implPanicked (obs : List String) : Bool := obs.head? == some "panic"
+/-- a panic inside the crate or its dependencies (absolute source path); a panic of the harness itself on a malformed
+case (`src/interp.rs: no_int`, relative path) is not an observation about the implementation -/
+def implPanicked (obs : List String) : Bool :=
+  obs.head? == some "panic" && ((obs.getD 1 "").startsWith "/")
+
+/-- does an operator of the interpreter's queue carry a non-finite parameter (a NaN / infinite half-angle phase)?
+Such a program is the known finding D16 (accepted, panics when measured); the tag keeps it apart from any other panic -/
+def atomNonFinite : Atom Float → Bool
+  | .rx _ p | .ry _ p | .rz _ p | .rxx _ p | .ryy _ p | .rzz _ p => !(p.re.isFinite && p.im.isFinite)
+  | _ => false
+
+def queueNonFinite (e : ExtOp Float) : Bool :=
+  e.blocks.any (fun b => b.1.any (fun g => atomNonFinite g.func)) || e.tail.any (fun g => atomNonFinite g.func)
 
 /-- Compare a model buffer with the observed one. -/
 def cmpVec (r : Report) (st : DSt) (ln : Nat) (cmd : String) (model : Array (Cx Float))
@@ -1374,8 +1386,11 @@ def step (st : DSt) (r : Report) (ln : Nat) (cmd obs : List String) : DSt × Rep
     | _, _ => (st, r.mismatch st ln "matrix" "no-op" "")
   | c :: _ =>
     -- SPEC (C12): the interpreter never panics
+    let nonFinite := (st.sym.map (fun s => queueNonFinite s.qOps)).getD false ||
+                     (st.int.map (fun i => queueNonFinite i.qOps)).getD false
     let r := if c.startsWith "i" && implPanicked obs then
-               r.specfail st ln "c12.panic" "a result or an error value" (String.intercalate " " (obs.take 4))
+               r.specfail st ln (if nonFinite then "c12.panic.nonfinite" else "c12.panic") "a result or an error value"
+                 (String.intercalate " " (obs.take 4))
              else r
     match (stepReg st r ln cmd obs).orElse (fun _ => stepInt st r ln cmd obs) with
     | some res => res
